@@ -10,14 +10,14 @@ LEVEL = "model_checking"
 
 def jobs(ctx, mode):
     specs = roundtrip.all_specs()
-    k = 2 if ctx.thorough else 1
+    k = 3 if ctx.thorough else 1
     out = []
     for name, spec in specs.items():
         for case in dbe.cases(spec.space, k):
             nat = case.get("natom", 0)
             ndev = len(dbe.deviations(spec.space, case))
-            if nat and nat >= 9999 and ndev > 1 and not ctx.thorough:
-                continue
+            if nat and nat >= 9999 and ndev > (2 if ctx.thorough else 1):
+                continue  # the largest systems only in combination with at most one (thorough: two) other deviation
             out.append((mode, name, case))
     out.sort(key=lambda j: -int(j[2].get("natom", 0) or 0))
     return out, k, specs
